@@ -126,6 +126,34 @@ def run_case(ctx, bodies, upper, terminate, how, pad, cuts, bufsize, readpat, ti
                       f"({classes}), bufsize {bufsize}: delivered {len(got)} of {len(want)} bytes, first difference at "
                       f"{i}", params)
         return False
+    if (len(encoded) + len(cuts)) % 3 == 0:
+        # the public helper used directly, as its documentation describes: segments handed to dechunk() by the caller,
+        # the returned partial chunk prepended to the next segment - whatever the wrapper's own receive size is
+        s2 = doubles.ScriptedSocket(b"", [], budget=8)
+        try:
+            w2 = SocketWrapper(s2, encoding=ENC[how], bufsize=1 + len(encoded) % 7)
+            fn = getattr(w2, "dechunk", None)
+            if fn is None:
+                ctx.hit("dechunk_not_public")
+            else:
+                out, partial, prev = bytearray(), b"", 0
+                try:
+                    for c in list(cuts) + [len(encoded)]:
+                        chunks, partial = fn(bytes(partial) + encoded[prev:c])
+                        out += chunks
+                        prev = c
+                except Exception as e:
+                    ctx.violation("wrapper-raised", f"dechunk() called directly: {type(e).__name__}: {e}", params)
+                    return False
+                ctx.hit("dechunk_called_directly")
+                if bytes(out) != want:
+                    ctx.violation("chunk-data-lost" if len(out) < len(want) else "chunk-data-corrupted",
+                                  f"dechunk() called directly on {len(cuts) + 1} segments of a {len(encoded)}-byte "
+                                  f"stream ({how or 'plain'}), wrapper bufsize {1 + len(encoded) % 7}: returned "
+                                  f"{len(out)} of {len(want)} bytes", params)
+                    return False
+        finally:
+            s2.close()
     for c in cuts:
         ctx.hit("cut:" + refchunk.cut_class(layout, c))
     ctx.hit("enc:" + (how or "chunked"))
